@@ -137,6 +137,16 @@ type fnLocks struct {
 	requires map[string]mode
 	hasOps   bool
 	nOps     int
+	// state at each return (after the deferred operations ran)
+	exits []map[string]lstate
+}
+
+// acquirer describes a function that takes a lock and hands back the function that
+// releases it (`defer t.lockForWrite()()`): calling it is an acquisition, calling (or
+// deferring) its result is the matching release.
+type acquirer struct {
+	op       lockOp        // the acquisition
+	releaser *ssa.Function // the closure it returns
 }
 
 type lockProblem struct {
@@ -154,6 +164,8 @@ type LockAnalysis struct {
 	// closure call contexts
 	syncHOF func(c *core.CallInfo) bool
 	roots   map[*ssa.Function]string
+	// lock-and-return-unlocker helpers
+	Acquirers map[*ssa.Function]acquirer
 }
 
 var lockCache = map[*core.Program]*LockAnalysis{}
@@ -174,7 +186,18 @@ func Locks(p *core.Program) *LockAnalysis {
 		all = append(all, p.SrcFuncs(path)...)
 	}
 	for _, fn := range all {
-		la.Fns[fn] = analyseLocal(fn)
+		la.Fns[fn] = analyseLocal(fn, nil)
+	}
+	la.Acquirers = findAcquirers(la, all)
+	if len(la.Acquirers) > 0 {
+		for _, fn := range all {
+			la.Fns[fn] = analyseLocal(fn, la.Acquirers)
+		}
+		for g, a := range la.Acquirers {
+			// the pair is balanced as a pair: the helper returns holding the lock, its result releases it
+			la.Fns[g].problems = dropRetProblems(la.Fns[g].problems, a.op.lock)
+			la.Fns[a.releaser].problems = dropRetProblems(la.Fns[a.releaser].problems, a.op.lock)
+		}
 	}
 	la.computeBreaks(all)
 	la.computeEntries(all)
@@ -190,7 +213,126 @@ func inRepo(p *core.Program, fn *ssa.Function) bool {
 	return r.Pkg != nil && p.SPkgs[r.Pkg.Pkg.Path()] == r.Pkg
 }
 
-func analyseLocal(fn *ssa.Function) *fnLocks {
+func dropRetProblems(ps []lockProblem, lock string) []lockProblem {
+	var out []lockProblem
+	for _, p := range ps {
+		if strings.HasPrefix(p.key, "ret:"+lock+":") {
+			continue
+		}
+		out = append(out, p)
+	}
+	return out
+}
+
+// acquirerCallOf: v is the result of a call of a lock-and-return-unlocker helper.
+func acquirerCallOf(v ssa.Value, acq map[*ssa.Function]acquirer) (acquirer, bool) {
+	if len(acq) == 0 || v == nil {
+		return acquirer{}, false
+	}
+	call, ok := core.Resolve(v).(*ssa.Call)
+	if !ok {
+		return acquirer{}, false
+	}
+	sc := call.Call.StaticCallee()
+	if sc == nil {
+		return acquirer{}, false
+	}
+	a, ok := acq[sc]
+	return a, ok
+}
+
+// findAcquirers recognises the helpers: a function with a single func() result, no lock
+// problem other than returning with exactly one lock L acquired (in the same mode at
+// every return), whose every returned value is one of its own closures that releases L
+// from its entry state on every path and does nothing else to locks.
+func findAcquirers(la *LockAnalysis, all []*ssa.Function) map[*ssa.Function]acquirer {
+	out := map[*ssa.Function]acquirer{}
+	for _, g := range all {
+		fl := la.Fns[g]
+		res := g.Signature.Results()
+		if fl == nil || !fl.hasOps || res.Len() != 1 || len(fl.exits) == 0 {
+			continue
+		}
+		if sig, ok := res.At(0).Type().Underlying().(*types.Signature); !ok || sig.Params().Len() != 0 || sig.Results().Len() != 0 {
+			continue
+		}
+		var lock string
+		var st lstate
+		okG := true
+		for _, ex := range fl.exits {
+			n := 0
+			for l, s := range ex {
+				if s == sE {
+					continue
+				}
+				n++
+				if (s != sAW && s != sAR) || (lock != "" && (l != lock || s != st)) {
+					okG = false
+				}
+				lock, st = l, s
+			}
+			if n != 1 {
+				okG = false
+			}
+		}
+		for _, pr := range fl.problems {
+			if !strings.HasPrefix(pr.key, "ret:"+lock+":") {
+				okG = false
+			}
+		}
+		if !okG || lock == "" {
+			continue
+		}
+		var rel *ssa.Function
+		for _, b := range g.Blocks {
+			r, isRet := b.Instrs[len(b.Instrs)-1].(*ssa.Return)
+			if !isRet {
+				continue
+			}
+			for _, v := range returnValues(r.Results[0]) {
+				cl := closureOf(v)
+				if cl == nil || cl.Parent() != g || (rel != nil && cl != rel) {
+					okG = false
+					continue
+				}
+				rel = cl
+			}
+		}
+		if !okG || rel == nil {
+			continue
+		}
+		rl := la.Fns[rel]
+		want, need := sRW, mW
+		if st == sAR {
+			want, need = sRR, mR
+		}
+		if rl == nil || len(rl.exits) == 0 || rl.requires[lock] != need {
+			continue
+		}
+		for _, ex := range rl.exits {
+			for l, s := range ex {
+				if (l == lock && s != want) || (l != lock && s != sE) {
+					okG = false
+				}
+			}
+			if ex[lock] != want {
+				okG = false
+			}
+		}
+		for _, pr := range rl.problems {
+			if !strings.HasPrefix(pr.key, "ret:"+lock+":") {
+				okG = false
+			}
+		}
+		if !okG {
+			continue
+		}
+		out[g] = acquirer{op: lockOp{lock: lock, write: st == sAW, acq: true}, releaser: rel}
+	}
+	return out
+}
+
+func analyseLocal(fn *ssa.Function, acq map[*ssa.Function]acquirer) *fnLocks {
 	fl := &fnLocks{fn: fn, before: map[ssa.Instruction]map[string]lstate{}, breaksDirect: map[string]token.Pos{}, requires: map[string]mode{}}
 	if len(fn.Blocks) == 0 {
 		return fl
@@ -280,6 +422,14 @@ func analyseLocal(fn *ssa.Function) *fnLocks {
 				if op, ok := lockOpOf(core.Call(x)); ok {
 					fl.nOps++
 					apply(st, op, x.Pos(), false)
+				} else if a, ok := acq[x.Call.StaticCallee()]; ok && x.Call.StaticCallee() != nil {
+					fl.nOps++
+					apply(st, a.op, x.Pos(), false)
+				} else if a, ok := acquirerCallOf(x.Call.Value, acq); ok && !x.Call.IsInvoke() {
+					fl.nOps++
+					rel := a.op
+					rel.acq = false
+					apply(st, rel, x.Pos(), false)
 				}
 			case *ssa.Defer:
 				ci := core.Call(x)
@@ -287,6 +437,12 @@ func analyseLocal(fn *ssa.Function) *fnLocks {
 					fl.nOps++
 					fl.hasOps = true
 					o := op
+					st.defers = append(st.defers, deferred{op: &o, pos: x.Pos()})
+				} else if a, ok := acquirerCallOf(x.Call.Value, acq); ok && !x.Call.IsInvoke() {
+					fl.nOps++
+					fl.hasOps = true
+					o := a.op
+					o.acq = false
 					st.defers = append(st.defers, deferred{op: &o, pos: x.Pos()})
 				} else if ci.Static != nil && ci.Static.Blocks != nil {
 					st.defers = append(st.defers, deferred{callee: ci.Static, pos: x.Pos()})
@@ -300,9 +456,12 @@ func analyseLocal(fn *ssa.Function) *fnLocks {
 				st.defers = nil
 			case *ssa.Return:
 				var ls []string
-				for l := range st.locks {
+				ex := map[string]lstate{}
+				for l, v := range st.locks {
 					ls = append(ls, l)
+					ex[l] = v
 				}
+				fl.exits = append(fl.exits, ex)
 				sort.Strings(ls)
 				for _, l := range ls {
 					if s := st.locks[l]; s != sE && s != sM {
@@ -658,8 +817,23 @@ func (la *LockAnalysis) computeEntries(all []*ssa.Function) {
 		instr  ssa.Instruction
 		callee *ssa.Function
 		goStmt bool
+		held   *lockOp // releaser of a lock-and-return-unlocker helper: the lock it releases is held when it runs
 	}
 	var sites []site
+	if len(la.Acquirers) > 0 {
+		for _, fn := range all {
+			for _, c := range core.AllCalls(fn) {
+				if c.Common.IsInvoke() {
+					continue
+				}
+				if a, ok := acquirerCallOf(c.Common.Value, la.Acquirers); ok {
+					op := a.op
+					sites = append(sites, site{fn, c.Instr, a.releaser, false, &op})
+					called[a.releaser] = true
+				}
+			}
+		}
+	}
 	for _, fn := range all {
 		for _, c := range core.AllCalls(fn) {
 			_, isGo := c.Instr.(*ssa.Go)
@@ -678,7 +852,7 @@ func (la *LockAnalysis) computeEntries(all []*ssa.Function) {
 					if inner, ok := la.paramInvocations(c.Static, ai, 0); ok && len(inner) > 0 {
 						viaParam[cl] = true
 						for _, in := range inner {
-							sites = append(sites, site{in.Parent(), in, cl, false})
+							sites = append(sites, site{in.Parent(), in, cl, false, nil})
 						}
 						called[cl] = true
 					}
@@ -688,7 +862,7 @@ func (la *LockAnalysis) computeEntries(all []*ssa.Function) {
 				if viaParam[callee] {
 					continue
 				}
-				sites = append(sites, site{fn, c.Instr, callee, isGo})
+				sites = append(sites, site{fn, c.Instr, callee, isGo, nil})
 				called[callee] = true
 			}
 		}
@@ -723,6 +897,17 @@ func (la *LockAnalysis) computeEntries(all []*ssa.Function) {
 			} else if _, isDefer := s.instr.(*ssa.Defer); isDefer {
 				// deferred call: runs at function exit; balanced functions are back at their entry state
 				ctx = la.Entry[s.caller]
+				if s.held != nil {
+					cp := ent{}
+					for k, v := range ctx {
+						cp[k] = v
+					}
+					cp[s.held.lock] = mR
+					if s.held.write {
+						cp[s.held.lock] = mW
+					}
+					ctx = cp
+				}
 			} else {
 				ctx = la.AbsAt(s.instr)
 			}
